@@ -52,6 +52,10 @@ func VerifClientRecv(protocol ClientProtocol, conf *TarsClientConf, conn net.Con
 	client.conn.recv(conn, done)
 }
 
+// VerifMarkClosed puts the server into the state a graceful Shutdown sets first (no new
+// work is accepted, connections are drained).
+func (ts *TarsServer) VerifMarkClosed() { atomic.StoreInt32(&ts.isClosed, 1) }
+
 // VerifNewClient creates a client whose receive loop can be run on a sequence of supplied
 // connections (what a client does across reconnects).
 func VerifNewClient(protocol ClientProtocol, conf *TarsClientConf) *TarsClient {
